@@ -41,9 +41,14 @@ def one(ctx, i):
     rng = random.Random(f'{ctx.seed}-c16-{i}')
     quick = ctx.quick
     cfg = gen.rand_cfg(rng, n_max=4 if quick else 5, demes_max=2, epochs_max=1)
+    if rng.random() < 0.2:
+        # one deme, more lineages (the block-counting space has only p(n) states): even n >= 6 is the first size at which a
+        # folded class has two mirrored partners besides the self-mirrored centre
+        cfg = gen.rand_cfg(rng, n_max=4, demes_max=1, epochs_max=1)
+        cfg['n'][list(cfg['n'])[0]] = rng.choice([6, 6, 7, 8])
     n = sum(cfg['n'].values())
     theta = rng.choice([0.0, 0.125, 1.0, 7.5])
-    M = 3 if quick else (5 if n <= 4 else 4)
+    M = (3 if quick else (5 if n <= 4 else 4)) if n <= 5 else 2
     coal = conv.make_coalescent(pg, cfg)
     drv = C.driver()
     k_states = conv.setup_model(drv, cfg, 'bc')
@@ -57,6 +62,21 @@ def one(ctx, i):
     model_perm = sorted(tuple(int(x) for x in t.split(',')) for t in drv.ask(f'orderings {C.nlist(sorted(ms))}').split()) if ms else [()]
     if len(set(real_perm)) != len(real_perm) or real_perm != model_perm:
         ctx.violation('multiset-permutations', multiset=ms, real=real_perm[:10], expected=model_perm[:10])
+    # _unfold is pure combinatorics on (n, folded configuration): larger n than the probabilities below can afford,
+    # against the model and against the brute-force pre-image of the folding map
+    un = rng.randint(2, 11)
+    ucoal = pg.Coalescent(n=un, parallelize=False, pbar=False)
+    uc = [rng.choice([0, 0, 1, 1, 2]) for _ in range(un // 2)]
+    got = sorted(tuple(int(x) for x in u) for u in ucoal.fsfs._unfold(list(uc)))
+    model_u = sorted(tuple(int(x) for x in t.split(',')) for t in drv.ask(f'unfold {un} {C.nlist(uc)}').split())
+    pre = sorted(u for u in itertools.product(*[range(max(uc) + 1)] * (un - 1))
+                 if all((u[i] + u[un - 2 - i] if i != un - 2 - i else u[i]) == uc[i] for i in range(un // 2)))
+    ctx.count(f'unfold-n{un}')
+    if got != model_u:
+        ctx.corr_break('unfold', n=un, config=uc, real=got[:12], model=model_u[:12])
+    if got != pre:
+        ctx.violation('unfold-preimage', cfg=dict(n=un), n=un, config=uc, observed=got[:20], expected=pre[:20],
+                      oracle='all vectors u of length n-1 with u_i + u_(n-i) = c_i (u_(n/2) = c_(n/2) for even n)')
     mm, kk = rng.randint(0, 4), rng.randint(1, 4)
     rp = [tuple(p) for p in StateSpace._get_partitions(mm, kk)]
     mp = [tuple(int(x) for x in t.split(',')) for t in drv.ask(f'partitions {mm} {kk}').split()]
@@ -176,6 +196,15 @@ def run(ctx):
 
 def replay(ctx, payload):
     pg = C.import_phasegen()
+    if payload.get('signature') == 'unfold-preimage':
+        un, uc = int(payload['n']), [int(x) for x in payload['config']]
+        got = sorted(tuple(int(x) for x in u) for u in pg.Coalescent(n=un, parallelize=False, pbar=False).fsfs._unfold(list(uc)))
+        pre = sorted(u for u in itertools.product(*[range(max(uc) + 1)] * (un - 1))
+                     if all((u[i] + u[un - 2 - i] if i != un - 2 - i else u[i]) == uc[i] for i in range(un // 2)))
+        ctx.case(dict(n=un, config=uc), 'replay')
+        if got != pre:
+            ctx.violation('unfold-preimage', cfg=dict(n=un), n=un, config=uc, observed=got[:20], expected=pre[:20])
+        return
     cfg = conv.cfg_from_json(payload['cfg'])
     theta = payload.get('theta', 1.0)
     coal = conv.make_coalescent(pg, cfg)
